@@ -2,9 +2,9 @@
   Model/Incent — M-Incent: x/streamer (streams, epoch pointers, paged distribution) and
   x/incentives (asset / rollapp gauges, payouts to lock owners / rollapp owner) of the Dymension hub,
   mirroring the Go code AS IT IS (same order of checks, same rounding, same error cases) — with the
-  repairs fix D1 (share = amount·weight/total), D2 (streams sorted by id in Distribute) and D3 (a stream
-  starts with its own epoch; pointer reset at every epoch end; TerminateStream falls back to the
-  upcoming list) applied.
+  repairs fix D1 (share = amount·weight/total) and D2 (streams sorted by id in Distribute) applied.
+  (D3 — mid-epoch activation — is NOT repaired: an upstream test pins that mechanism; see tag c15-d1-d2-d3
+  for the variant of this package that follows fix D3.)
   Core Lean only.
 
   Mirrors (file: functions):
@@ -562,25 +562,26 @@ def streamerEndBlock (s : State) : Res :=
 
 def activeStreamsFor (s : State) (e : Nat) : List Stream := (activeStreams s).filter (·.epochId == e)
 
-/-- streamer `AfterEpochEnd` (fix D3: no early return, the pointer is reset at every epoch end) -/
+/-- streamer `AfterEpochEnd` (returns early, without resetting the pointer, when the epoch has no active stream) -/
 def streamerAfterEpochEnd (s : State) (e : Nat) : Res :=
+  if (activeStreamsFor s e).isEmpty then .ok s else
   match strDistribute s [e] (activeStreamsFor s e) maxU64 true with
   | .error x => .error x
   | .ok s' => .ok { s' with ptrs := s'.ptrs.set e Pointer.first }
 
-/-- `moveUpcomingStreamToActiveStream` for all due upcoming streams of this epoch identifier
-    (iterating a snapshot; fix D3: a stream starts together with its own epoch) -/
-def activateDue (e : Nat) : List Stream → State → Res
+/-- `moveUpcomingStreamToActiveStream` for all due upcoming streams, whatever their epoch identifier
+    (iterating a snapshot) -/
+def activateDue : List Stream → State → Res
   | [], s => .ok s
   | st :: rest, s =>
-    if st.epochId == e && decide (st.start ≤ s.now) then
+    if st.start ≤ s.now then
       match Refs.del s.upcoming st.start st.id with
       | none => .error .err
       | some u =>
         match Refs.add s.active st.start st.id with
         | none => .error .err
-        | some a => activateDue e rest { s with upcoming := u, active := a }
-    else activateDue e rest s
+        | some a => activateDue rest { s with upcoming := u, active := a }
+    else activateDue rest s
 
 /-- `UpdateStreamAtEpochStart` for the active streams of the epoch; `Coins.Sub` may panic -/
 def startStreams : List Stream → State → Res
@@ -597,7 +598,7 @@ def startStreams : List Stream → State → Res
 
 /-- streamer `BeforeEpochStart` -/
 def streamerBeforeEpochStart (s : State) (e : Nat) : Res :=
-  match activateDue e (upcomingStreams s) s with
+  match activateDue (upcomingStreams s) s with
   | .error x => .error x
   | .ok s1 => startStreams (activeStreamsFor s1 e) s1
 
@@ -740,23 +741,15 @@ def moveToFinished (s : State) (fromActive : Bool) (st : Stream) : Option State 
     | none => none
     | some f => if fromActive then some { s with active := r, finished := f } else some { s with upcoming := r, finished := f }
 
-/-- `TerminateStreamProposal` (fix D3: a started stream may still be in the upcoming list) -/
+/-- `TerminateStreamProposal`: the list is chosen by the time predicate, not by where the stream is -/
 def terminateStream (s : State) (id : Nat) : Out × State :=
   match getStream s id with
   | none => (.err, s)
   | some st =>
     if st.isFinished s.now then (.err, s) else
-    if st.isActive s.now then
-      match moveToFinished s true st with
-      | some s' => (.ok, s')
-      | none =>
-        match moveToFinished s false st with
-        | some s' => (.ok, s')
-        | none => (.err, s)
-    else
-      match moveToFinished s false st with
-      | some s' => (.ok, s')
-      | none => (.err, s)
+    match moveToFinished s (st.isActive s.now) st with
+    | some s' => (.ok, s')
+    | none => (.err, s)
 
 /-- `ReplaceStreamDistributionProposal` -/
 def replaceDistr (s : State) (id : Nat) (recs : List Rec) : Out × State :=
